@@ -12,18 +12,45 @@ ODE = 'solvers.ode'
 H = 0.5     # step size used in the scenarios (a power of two: coefficient arithmetic is exact)
 
 
-def run_tdvp(repo, which, d, steps, dtype='complex', capped=False):
+def run_tdvp(repo, which, d, steps, dtype='complex', capped=False, normalize=0):
     def body(sc):
         Hop = sc.tt('A', d, 'op', dtype=dtype)
         x = sc.tt('x', d, 'vec', dtype=dtype)
         sc.inputs = {'A': Hop, 'x': x}
         if which == 'tdvp1site':
-            return sc.call(f'{ODE}.tdvp1site', Hop, x, H, steps)
+            return sc.call(f'{ODE}.tdvp1site', Hop, x, H, steps, normalize=normalize)
         mr = sc.atom('rho', free=True) if capped else math.inf
         if which == 'tdvp2site':
-            return sc.call(f'{ODE}.tdvp2site', Hop, x, H, steps, threshold=1e-10 if capped is True else 0, max_rank=mr)
-        return sc.call(f'{ODE}.tdvp', Hop, x, H, steps, threshold=0, max_rank=sc.atom('rho', free=True))
+            return sc.call(f'{ODE}.tdvp2site', Hop, x, H, steps, threshold=1e-10 if capped is True else 0, max_rank=mr, normalize=normalize)
+        return sc.call(f'{ODE}.tdvp', Hop, x, H, steps, threshold=0, max_rank=sc.atom('rho', free=True), normalize=normalize)
     return l2.explore(repo, body, max_paths=5000)
+
+
+def normalisation_currency(res):
+    """with normalize > 0 every returned state k >= 1 is scaled by a norm that was computed during step k (from the state that step produced), not by one that an
+    earlier state was already scaled with.  Returns (violations, undecided): lists of step numbers."""
+    def cores(t):
+        return [c for c in t._attrs['cores'] if isinstance(c, Arr)]
+
+    def is_norm(a):
+        return a.ndim == 0 and a.origin in ('norm', 'amax')
+    bad, unknown = [], []
+    prev = A.ancestors(cores(res[0]))
+    for k in range(1, len(res)):
+        anc = A.ancestors(cores(res[k]))
+        fresh = {i: a for i, a in anc.items() if i not in prev}
+        if any(is_norm(a) for a in fresh.values()):
+            prev = anc
+            continue
+        # no norm was computed since the previous state: is the state scaled at all in this step, and with what?
+        stale_scaled = False
+        for a in fresh.values():
+            for p_ in (a.parents or ()):
+                if isinstance(p_, Arr) and p_.ndim == 0 and (is_norm(p_) or any(is_norm(q) for q in A.ancestors([p_]).values())):
+                    stale_scaled = True
+        (bad if stale_scaled else unknown).append(k)
+        prev = anc
+    return bad, unknown
 
 
 def site_times(sc):
@@ -60,6 +87,7 @@ def check(repo, tier):
              'evolutions), with exponents of the form -1j*t')
     run.rule('D5', 'trajectory: initial value first (by identity), one distinct new object per step satisfying the class invariant; cores 1..d-1 orthonormal factors after a step')
     run.rule('D6', 'Krylov: Lanczos recurrences in normal form (conjugated bra in alpha, w - alpha v - beta v_prev, symmetric tridiagonal stores, sum_j c_j v_j)')
+    run.rule('D8', 'normalize > 0: the factor applied to the state of step k is the reciprocal of a norm computed from the state produced by step k')
     run.rule('D7', 'frame: operator and initial state not modified (Layer 1)')
     run.trusted = ['leg semantics of the NumPy/SciPy transfer functions', 'the contraction rule', 'expm_multiply(c*M, v) denotes exp(c M) v']
     orders = (1, 2, 3, 4) if tier == 'thorough' else (1, 2, 3)
@@ -77,10 +105,12 @@ def check(repo, tier):
     grid.append(('tdvp2site', 3, 2, False))
     for d in ((2, 3) if tier == 'quick' else (2, 3, 4)):
         grid.append(('tdvp', d, 1, True))
-    for which, d, steps, capped in grid:
+    grid += [('tdvp1site', 2, 2, False, 2), ('tdvp2site', 2, 2, False, 2), ('tdvp2site', 3, 3, False, 1)]
+    for which, d, steps, capped, *nz in grid:
+        nz = nz[0] if nz else 0
         entry = f'{ODE}.{which}'
-        scen0 = f'{which}(order={d}, steps={steps}{", max_rank=rho" if capped else ""}{", threshold=0" if capped == "threshold 0" else ""})'
-        paths = run_tdvp(repo, which, d, steps, capped=capped)
+        scen0 = f'{which}(order={d}, steps={steps}{", max_rank=rho" if capped else ""}{", threshold=0" if capped == "threshold 0" else ""}{f", normalize={nz}" if nz else ""})'
+        paths = run_tdvp(repo, which, d, steps, capped=capped, normalize=nz)
         for ch, sc, res, exc in paths:
             scen = scen0
             pscen = scen0 + (f' [rank-test outcomes {"".join("T" if c else "F" for c in ch)}]' if ch else '')
@@ -100,6 +130,15 @@ def check(repo, tier):
                 continue
             for t in res[1:]:
                 l2rules.invariant_obligation(run, 'C11', 'D5', repo, sc, t, entry, scen, 'returned state')
+            # D8 normalisation
+            if nz:
+                nb, nu = normalisation_currency(res)
+                if nu and not nb:
+                    raise AnalysisError(f'{scen}: no norm computation is recognised in step(s) {nu} although normalize={nz}')
+                run.oblige('D8', (entry, scen, tuple(ch)), not nb)
+                if nb:
+                    run.add(Finding('C11', 'D8', fn.where, 'normalisation factor', f'{pscen}: the state(s) of step(s) {nb} are scaled by the reciprocal of a norm that was computed before that step '
+                                    f'(an earlier state was already scaled with it): after the first step the state is rescaled again and again instead of being normalised', fn.file, fn.node.lineno))
             # D3 liveness
             anc = A.ancestors([c for t in res[1:] for c in t._attrs['cores'] if isinstance(c, Arr)])
             for e in sc.events('expm_multiply'):
